@@ -147,11 +147,15 @@ def s_gate(rng, nval):
 def s_anyall(rng, nval):
     b = B(rng)
     b.literal("r", k_const=rng.randint(0, 2), k_in=rng.randint(1, 3), k_comp=0)
+    thr = None
+    if rng.random() < 0.5:
+        thr, _t = b.scalar("r" if rng.random() < 0.3 else None)
     for i in range(rng.randint(1, 3)):
         k = rng.choice(["any", "all"])
-        b.prog.append(["sig", "q%d" % i, [k, rng.choice(CMP_OPS), ["v", "r"], ["n", rng.randint(-3, 8)]]])
+        sc = ["v", thr] if thr and rng.random() < 0.7 else ["n", rng.randint(-3, 8)]
+        b.prog.append(["sig", "q%d" % i, [k, rng.choice(CMP_OPS), ["v", "r"], sc]])
     edges = {s[1]: list(range(-4, 10)) for s in b.prog if s[0] == "input"}
-    return _mk(b.prog, "any_all", rng, nval, edges=edges)
+    return _mk(b.prog, "any_all" + ("_signal_threshold" if thr else ""), rng, nval, edges=edges)
 
 
 def s_select(rng, nval):
